@@ -27,6 +27,14 @@ def corpus(gen):
         ("pitch bend with offset", one(axes=[(b"x02", ax(type=b"pitch_bend", off=9))])),
         ("action axis with both actions", one(axes=[(b"ABS_Y", ax(type=b"action", act=b"mapping_up", actneg=b"mapping_down"))])),
         ("channel 16, velocity 127", one(keys=[(b"KEY_A", b"127,15"), (b"x1f", b"c-2"), (b"KEY_D", b"G8,0")], channel=16, velocity=127)),
+        # key codes and axis codes are separate number spaces that overlap below 0x40 (KEY_ESC = 1 = ABS_Y, KEY_1 = 2 = ABS_Z, KEY_Q = 16 =
+        # ABS_HAT0X): keys by name and axes by raw code - and the other way round - with equal numbers in one sub-handler, all of them stay
+        ("keys by name and axes by raw code with equal numbers",
+         one(keys=[(b"KEY_ESC", b"60"), (b"KEY_1", b"61,2"), (b"KEY_Q", b"c3")],
+             axes=[(b"x01", ax(cc=7)), (b"x02", ax(type=b"pitch_bend", off=1)), (b"x10", ax(type=b"key", note=40, noteneg=41)), (b"ABS_X", ax(cc=9))])),
+        ("keys by raw code and axes by name with equal numbers",
+         one(keys=[(b"x01", b"60"), (b"x02", b"61"), (b"x10", b"62"), (b"x00", b"63")],
+             axes=[(b"ABS_Y", ax(cc=7)), (b"ABS_Z", ax(cc=8)), (b"ABS_HAT0X", ax(type=b"key", note=40, noteneg=41)), (b"ABS_X", ax(cc=9))])),
         ("two mappings of the same name: the last is the default",
          dict(pg.clone(base), mappings=[dict(name=b"a", keys=[dict(sub=b"", map=[(b"KEY_A", b"1")])], analog=[]),
                                         dict(name=b"b", keys=[], analog=[]),
